@@ -16,6 +16,7 @@ _RACE = {
 ENTRY = {
     "C14": dict(_MAIN, **{
         "parts": [_MAIN, _RACE],
+        "technique": "bounded exhaustive exploration of the real implementation (explicit-state search / stateless DFS over a closed driver) against a reference model (part 1); part 2: exhaustive enumeration of batch shapes through both real socket goroutines running concurrently in a race-detector build, the detector's happens-before reports as per-execution monitor",
         "rule": "one execution = one DataRecord (cross product of boundary alphabets for every field) encoded by the real messageRecords or messageSummaries "
                 "and decoded by a decoder written from doc/BINARY_FORMATS.md (2 frames, 36-byte record header / 48-byte summary header, documented offsets, "
                 "little-endian, type code 2/3, payload exactly the samples / float64 coefficients, bytes 0-1 = channel); every field must be recovered exactly "
